@@ -170,6 +170,17 @@ CHECKS = {
              "suite, group spans included); its wall-clock time is assumed polynomially related to the model's step count; "
              "non-regex parsers are argued linear, not proved. Degrees are coarse (<= 6 for RPM_NVRA_RE).",
         design="DESIGN.md section 6 C19"),
+    "C20": dict(
+        text="Coq theorems over an abstract directory oracle (exists / listdir as section variables): C20_prefers_compose, "
+             "C20_direct, C20_legacy (a single populated legacy subdirectory is chosen), C20_trailing_slash, "
+             "C20_current_name_first / C20_legacy_name_fallback, C20_missing_is_runtimeerror, C20_loaded_once (cache), "
+             "C20_undecodable_is_runtimeerror. Tie: every subset of {direct, compose/, legacy} x file-presence patterns x trailing "
+             "slash is laid out on real directories; Compose(path).compose_path and the file each accessor loads are compared "
+             "with the model fed with the real listing; the oracle checks equality with a direct load, identity on re-access and "
+             "RuntimeError naming the location.",
+        note="With several layouts populated at once the choice among legacy subdirectories follows os.listdir order (observation "
+             "O8); URL paths not modelled.",
+        design="DESIGN.md section 6 C20"),
 }
 
 TECH = "machine-checked proof in Coq over a hand model + regenerated data; differential correspondence with the implementation"
